@@ -110,6 +110,25 @@ pub fn values(rc: &RootCtx, seed: u64, n: usize) -> Vec<Val> {
     out
 }
 
+/// A few large values (lengths beyond 2^16, files beyond one and two pages)
+/// for a handful of roots: used by the monitors whose cost is linear in the
+/// stream length (C01, C02, C03, C06, C07, C08).
+pub fn big_values(rc: &RootCtx) -> Vec<Val> {
+    let seq = |n: usize, f: &dyn Fn(usize) -> Val| Val::Seq((0..n).map(f).collect());
+    match rc.name {
+        "Vec<u8>" => vec![seq(70_001, &|i| Val::P((i % 251) as u128)), seq(4096, &|i| Val::P((i % 7) as u128)), seq(8192 - 53, &|i| Val::P((i % 5) as u128))],
+        "Box<[u8]>" => vec![seq(65_536, &|i| Val::P((i % 253) as u128))],
+        "String" => vec![Val::Str("é".repeat(33_000)), Val::Str("x".repeat(4096 - 45)), Val::Str("y".repeat(12_345))],
+        "Vec<u64>" => vec![seq(65_537, &|i| Val::P(i as u128 * 0x1_0001)), seq(512, &|i| Val::P(i as u128))],
+        "Vec<u16>" => vec![seq(70_000, &|i| Val::P((i & 0xffff) as u128))],
+        "Vec<d::Z1>" => vec![seq(65_600, &|i| Val::Struct(vec![Val::P((i % 256) as u128), Val::P(i as u128)]))],
+        "Vec<String>" => vec![seq(70_000, &|i| Val::Str(if i % 1000 == 0 { "ab".into() } else { String::new() }))],
+        "Vec<Vec<u8>>" => vec![seq(300, &|i| seq(i % 40, &|j| Val::P(j as u128)))],
+        "d::D1" => vec![Val::Struct(vec![Val::P(7), Val::Str("z".repeat(66_000)), seq(9000, &|i| Val::P(i as u128))])],
+        _ => vec![],
+    }
+}
+
 #[derive(Default)]
 pub struct Log {
     pub counters: BTreeMap<String, u64>,
